@@ -17,12 +17,14 @@ Definition err_future : daerr := {| e_nf := false; e_fut := true |}.
 (* ---- blob classes (decided by handlePotentialHeader / handlePotentialData) ------------------------- *)
 Inductive blob :=
 | BHeader (id : N)      (* proposer-signed header: unmarshals, ValidateBasic = nil, proposer = genesis proposer (retriever.go:112-146) *)
-| BData (id : N)        (* proposer-signed SignedData, at least one tx, Metadata present (retriever.go:160-181) *)
+| BData (id : N)        (* proposer-signed SignedData, at least one tx, Metadata present (retriever.go:160-186) *)
 | BEmptyData            (* proposer-signed SignedData without txs: ignored (retriever.go:167) *)
-| BDataNoMeta (id : N)  (* proposer-signed SignedData, at least one tx, Metadata ABSENT: nil dereference in
-                           signedData.Height() at retriever.go:181, after SetDAIncluded at :179 *)
+| BDataNoMeta (id : N)  (* proposer-signed SignedData, at least one tx, Metadata ABSENT: ignored (retriever.go:171-175,
+                           since "fix: retriever: signed data without metadata no longer panics the DA scan";
+                           before it: nil dereference in signedData.Height(), see known_findings.json) *)
 | BJunk (k : N).        (* every other byte string, k = the generator's junk kind (empty, truncated, absurd
-                           length, wrong message, foreign signer, bad signature, random ...) *)
+                           length, wrong message, foreign signer, bad signature, random, forgeries that only
+                           claim the proposer's address ...) *)
 
 (* ---- outcome of one fetch attempt as the DA double scripts it ------------------------------------- *)
 Inductive outcome :=
@@ -106,25 +108,21 @@ Definition mem (x : N) (l : list N) : bool := existsb (N.eqb x) l.
 Inductive event := EHeader (id daH : N) | EData (id daH : N).        (* NewHeaderEvent / NewDataEvent *)
 Inductive mark := MHeader (id daH : N) | MData (id daH : N).         (* cache.SetDAIncluded *)
 
-(* retriever.go:83-92 with 112-157 and 160-191: events, DA-included marks, panicked? *)
-Fixpoint handle (c : cfg) (daH : N) (bl : list blob) : list event * list mark * bool :=
+(* retriever.go:83-92 with 112-157 and 160-196: events and DA-included marks; every class returns normally *)
+Fixpoint handle (c : cfg) (daH : N) (bl : list blob) : list event * list mark :=
   match bl with
-  | [] => ([], [], false)
+  | [] => ([], [])
   | b :: r =>
+      let '(ev, mk) := handle c daH r in
       match b with
-      | BDataNoMeta id => ([], [MData id daH], true)
-      | _ =>
-          let '(ev, mk, p) := handle c daH r in
-          match b with
-          | BHeader id => ((if mem id (c_seen_h c) then ev else EHeader id daH :: ev), MHeader id daH :: mk, p)
-          | BData id => ((if mem id (c_seen_d c) then ev else EData id daH :: ev), MData id daH :: mk, p)
-          | _ => (ev, mk, p)
-          end
+      | BHeader id => ((if mem id (c_seen_h c) then ev else EHeader id daH :: ev), MHeader id daH :: mk)
+      | BData id => ((if mem id (c_seen_d c) then ev else EData id daH :: ev), MData id daH :: mk)
+      | BEmptyData | BDataNoMeta _ | BJunk _ => (ev, mk)
       end
   end.
 
 (* ---- processNextDAHeaderAndData: retriever.go:56-109 --------------------------------------------- *)
-Inductive presult := PNil | PFuture | PErr | PPanic.    (* nil | from-the-future error | other error | panic *)
+Inductive presult := PNil | PFuture | PErr.    (* nil | from-the-future error | other error *)
 Inductive aclass := ASuccess | ANotFound | AFuture | AErrFut | AError.   (* class of one attempt *)
 
 Definition retries : nat := 10.                          (* dAFetcherRetries *)
@@ -143,8 +141,8 @@ Fixpoint attempts (c : cfg) (h : N) (bl : list blob) (n : nat) (outs : list outc
       | SNotFound => {| p_res := PNil; p_outs := outs'; p_calls := calls; p_events := []; p_marks := [];
                         p_classes := [ANotFound] |}                                  (* retriever.go:78-81 *)
       | SSuccess got =>
-          let '(ev, mk, p) := handle c h got in
-          {| p_res := if p then PPanic else PNil; p_outs := outs'; p_calls := calls; p_events := ev;
+          let '(ev, mk) := handle c h got in
+          {| p_res := PNil; p_outs := outs'; p_calls := calls; p_events := ev;
              p_marks := mk; p_classes := [ASuccess] |}                               (* retriever.go:82-93 *)
       | SFuture => {| p_res := PFuture; p_outs := outs'; p_calls := calls; p_events := []; p_marks := [];
                       p_classes := [AFuture] |}                                      (* retriever.go:94-96 *)
@@ -177,23 +175,21 @@ Definition mk_rec (h : N) (loop : bool) (bl : list blob) (p : pout) (next : N) :
 Definition no_height : hinfo := {| h_blobs := []; h_outs := [] |}.   (* a height the DA has not produced *)
 
 Record state := { s_cursor : N;               (* m.daHeight *)
-                  s_rest : list hinfo;        (* DA from the cursor's height on, outcome scripts as far as unused *)
-                  s_dead : bool }.            (* the RetrieveLoop goroutine has panicked *)
+                  s_rest : list hinfo }.      (* DA from the cursor's height on, outcome scripts as far as unused *)
 
 (* RetrieveLoop after one wake-up: retriever.go:29-51.  A successful iteration re-arms blobsFoundCh and
    the loop goes on with the next height; a failed one goes back to waiting.  Structural on the DA. *)
 Fixpoint scan (c : cfg) (cur : N) (rest : list hinfo) : state * list iter_rec :=
   match rest with
   | [] => let p := process c cur no_height in
-          ({| s_cursor := cur; s_rest := []; s_dead := false |}, [mk_rec cur true [] p cur])
+          ({| s_cursor := cur; s_rest := [] |}, [mk_rec cur true [] p cur])
   | hi :: rest' =>
       let p := process c cur hi in
       let stay := {| h_blobs := h_blobs hi; h_outs := p_outs p |} :: rest' in
       match p_res p with
       | PNil => let '(st, recs) := scan c (cur + 1) rest' in
                 (st, mk_rec cur true (h_blobs hi) p (cur + 1) :: recs)        (* retriever.go:46-50 *)
-      | PPanic => ({| s_cursor := cur; s_rest := stay; s_dead := true |}, [mk_rec cur true (h_blobs hi) p cur])
-      | _ => ({| s_cursor := cur; s_rest := stay; s_dead := false |}, [mk_rec cur true (h_blobs hi) p cur])  (* :38-44 *)
+      | _ => ({| s_cursor := cur; s_rest := stay |}, [mk_rec cur true (h_blobs hi) p cur])  (* :38-44 *)
       end
   end.
 
@@ -203,17 +199,16 @@ Inductive item :=
 
 Definition step (c : cfg) (st : state) (it : item) : state * list iter_rec :=
   match it with
-  | ISignal => if s_dead st then (st, []) else scan c (s_cursor st) (s_rest st)
+  | ISignal => scan c (s_cursor st) (s_rest st)
   | IProc =>
       let hi := hd no_height (s_rest st) in
       let p := process c (s_cursor st) hi in
       ({| s_cursor := s_cursor st;
-          s_rest := match s_rest st with [] => [] | _ :: r => {| h_blobs := h_blobs hi; h_outs := p_outs p |} :: r end;
-          s_dead := s_dead st |},
+          s_rest := match s_rest st with [] => [] | _ :: r => {| h_blobs := h_blobs hi; h_outs := p_outs p |} :: r end |},
        [mk_rec (s_cursor st) false (h_blobs hi) p (s_cursor st)])
   end.
 
-Definition init (c : cfg) (da : list hinfo) : state := {| s_cursor := boot c; s_rest := da; s_dead := false |}.
+Definition init (c : cfg) (da : list hinfo) : state := {| s_cursor := boot c; s_rest := da |}.
 
 (* per history item: the records it produced *)
 Fixpoint run_from (c : cfg) (st : state) (h : list item) : state * list (list iter_rec) :=
@@ -239,22 +234,14 @@ Definition genuine_events (c : cfg) (daH : N) (bl : list blob) : list event :=
                      | _ => []
                      end) bl.
 
-Definition is_poison (b : blob) : bool := match b with BDataNoMeta _ => true | _ => false end.
-Definition poisoned (da : list hinfo) : bool := existsb (fun hi => existsb is_poison (h_blobs hi)) da.
-
-(* the blobs before the first poisonous one *)
-Fixpoint before_poison (bl : list blob) : list blob :=
-  match bl with [] => [] | b :: r => if is_poison b then [] else b :: before_poison r end.
-
 (* ---- vocabulary of the property statements (Props/C09.v) ------------------------------------------ *)
 Definition call_at (h : N) (cl : call) : Prop :=
   match cl with CGetIDs h' => h' = h | CGet h' _ _ => h' = h end.
 
 (* the result processNextDAHeaderAndData must give when the deciding attempt has class a *)
-Definition result_of (a : aclass) (bl : list blob) : presult :=
+Definition result_of (a : aclass) : presult :=
   match a with
-  | ASuccess => if existsb is_poison bl then PPanic else PNil
-  | ANotFound => PNil
+  | ASuccess | ANotFound => PNil      (* whatever the blobs were *)
   | _ => PFuture
   end.
 
@@ -272,7 +259,7 @@ Definition rec_ok (r : iter_rec) : Prop :=
   (exists k : nat,
       (k = retries /\ i_classes r = repeat AError k /\ i_result r = PErr) \/
       ((k < retries)%nat /\ exists a, deciding a /\ i_classes r = repeat AError k ++ [a] /\
-                                      i_result r = result_of a (i_blobs r))) /\
+                                      i_result r = result_of a)) /\
   i_next r = (match i_result r with PNil => if i_loop r then i_height r + 1 else i_height r | _ => i_height r end).
 
 Fixpoint linked (cur : N) (its : list iter_rec) : Prop :=
@@ -283,9 +270,8 @@ Definition last_next (cur : N) (its : list iter_rec) : N := fold_left (fun _ r =
 Definition succeeded (cl : list aclass) : bool :=
   match last cl AError with ASuccess => true | _ => false end.
 
-(* the events of an iteration: on a successful fetch the genuine unseen blobs in DA order (up to a
-   poisonous blob, where the goroutine dies), otherwise none *)
+(* the events of an iteration: on a successful fetch the genuine unseen blobs in DA order, otherwise none *)
 Definition emits_ok (c : cfg) (r : iter_rec) : Prop :=
-  i_events r = if succeeded (i_classes r) then genuine_events c (i_height r) (before_poison (i_blobs r)) else [].
+  i_events r = if succeeded (i_classes r) then genuine_events c (i_height r) (i_blobs r) else [].
 
 Definition get_call (h : N) (oc : nat * list blob) : call := CGet h (fst oc) (length (snd oc)).
